@@ -51,7 +51,7 @@ PROPS["C13"] = dict(
          "client not reading), all max_conns slots occupied by idle connections for max_conns 1..4} and 14 (120) random mixes of 1..max_conns "
          "connections in those phases; observed: no stopped signal before revocation, stopped signal within 2 s (3 s wait), connect() after the "
          "signal refused, each connection's in-flight or next request answered completely (status + declared length) and the request after it not "
-         "served (closed). Non-trivial = at least one open connection at revocation.",
+         "served (closed) — also when the further requests arrive pipelined in one write (phases I, H). Non-trivial = at least one open connection at revocation.",
     nontrivial=lambda tag, args, obs: args[1] != "-",
     klass=lambda tag, args, obs: "c13:conns=%d:allslots=%s" % (len(args[1].replace("-", "")), "yes" if len(args[1].replace("-", "")) == int(args[0]) else "no"),
     explanation="Model/Server.lean. C13_rank_decreases/C13_bounded: after revocation the accept loop takes at most 3 more steps of its own in every "
